@@ -241,6 +241,7 @@ pub mod verif {
     pub use super::message::InboundIn;
     pub use super::message::OutboundIn;
     pub use super::tcp::relay;
+    pub use super::tcp::accept_websocket_then_replay;
 
     pub async fn relay_to<Si, St>(inbound_sink: &mut Si, inbound_stream: &mut St)
     where
